@@ -189,7 +189,9 @@ impl SyncBlocker {
 
     #[inline]
     pub fn unpark(&self) {
-        self.blocker.unpark();
+        // set the flag before the wake up: a waiter that is resumed by something
+        // else (cancel) consumes the wake up token, it must not miss the flag
         self.unparked.store(true, Ordering::Release);
+        self.blocker.unpark();
     }
 }
